@@ -28,6 +28,11 @@ def dotted(e: ast.AST) -> Optional[str]:
     return None
 
 
+def fact_key(m: loader.Module, n: ast.AST):
+    """Key of a node in the mypy fact tables: the file it was written in (a node inlined from another module keeps that module)."""
+    return (getattr(n, "_src", None) or m.relpath,) + loader.span(n)
+
+
 def seq(n: ast.AST):
     """Ordering key: textual position after inlining (see loader._set_parents)."""
     return (getattr(n, "seq", 0), getattr(n, "lineno", 0), getattr(n, "col_offset", 0))
@@ -158,12 +163,12 @@ class CallIndex:
         for m in repo.modules.values():
             for n in ast.walk(m.tree):
                 if isinstance(n, ast.Call):
-                    key = (m.relpath,) + loader.span(n)
+                    key = fact_key(m, n)
                     self.sites.append((repo.enclosing_func(n), m, n, list(facts.callees.get(key, []))))
         self._overrides: Dict[str, Set[str]] = {}
 
     def callees(self, m: loader.Module, c: ast.Call) -> List[str]:
-        return list(self.facts.callees.get((m.relpath,) + loader.span(c), []))
+        return list(self.facts.callees.get(fact_key(m, c), []))
 
     def overrides_of(self, method: str) -> Set[str]:
         """``C.m`` plus every ``D.m`` where D is a subclass of C that defines m (class-hierarchy analysis)."""
@@ -203,11 +208,11 @@ def call_index(ctx: Any) -> CallIndex:
 
 
 def type_of(ctx: Any, m: loader.Module, e: ast.AST) -> Optional[str]:
-    return ctx.facts.types.get((m.relpath,) + loader.span(e))
+    return ctx.facts.types.get(fact_key(m, e))
 
 
 def recv_class(ctx: Any, m: loader.Module, attr_expr: ast.Attribute) -> Optional[str]:
-    return ctx.facts.recv.get((m.relpath,) + loader.span(attr_expr))
+    return ctx.facts.recv.get(fact_key(m, attr_expr))
 
 
 def const_value(e: Optional[ast.AST]) -> Any:
@@ -255,7 +260,7 @@ def call_graph(ctx: Any) -> Dict[str, Set[str]]:
     for m in ctx.repo.modules.values():
         for n in ast.walk(m.tree):
             if isinstance(n, ast.Attribute) and isinstance(n.ctx, ast.Load):
-                rc = ctx.facts.recv.get((m.relpath,) + loader.span(n))
+                rc = ctx.facts.recv.get(fact_key(m, n))
                 if rc:
                     for cls in ctx.facts.mro.get(rc, [rc]):
                         q = f"{cls}.{n.attr}"
